@@ -64,6 +64,9 @@ impl CalculationAlgos {
         let mut peak_pos: usize = 0;
         let mut trough = 0.0;
         let mut trough_pos: usize = 0;
+        //Positions of the peak and trough that produced the maximum drawdown found so far
+        let mut maxdd_start_pos: usize = 0;
+        let mut maxdd_end_pos: usize = 0;
         let mut t2;
         for (pos, t1) in values.iter().enumerate() {
             if t1 > &peak {
@@ -76,11 +79,13 @@ impl CalculationAlgos {
                 trough_pos = pos;
                 t2 = (trough / peak) - 1.0;
                 if t2 < maxdd {
-                    maxdd = t2
+                    maxdd = t2;
+                    maxdd_start_pos = peak_pos;
+                    maxdd_end_pos = trough_pos;
                 }
             }
         }
-        (maxdd, peak_pos, trough_pos)
+        (maxdd, maxdd_start_pos, maxdd_end_pos)
     }
 
     fn var(values: &[f64]) -> f64 {
